@@ -59,6 +59,9 @@ func RandomManifest(t *rapid.T, root string, o ManifestOpts) *Schema {
 		kind string
 		size int    // fixed
 		prim string // typeref
+		// custom: the typeref is a custom typeref (v2): the manifest marks it isCustom and a hand-written <Name>.go beside the
+		// generated code provides the type and its Marshal / Unmarshal / Equals / ComputeHash functions (CustomTyperefSource)
+		custom bool
 	}
 	var plan []planned
 	for i := 0; i < n; i++ {
@@ -69,6 +72,7 @@ func RandomManifest(t *rapid.T, root string, o ManifestOpts) *Schema {
 			pl.size = rapid.IntRange(1, 16).Draw(t, "size")
 		case "typeref":
 			pl.prim = rapid.SampledFrom(Prims).Draw(t, "trprim")
+			pl.custom = rapid.IntRange(0, 2).Draw(t, "trcustom") == 0
 		}
 		plan = append(plan, pl)
 	}
@@ -279,6 +283,7 @@ func RandomManifest(t *rapid.T, root string, o ManifestOpts) *Schema {
 			nm.Size = p.size
 		case "typeref":
 			nm.Prim = p.prim
+			nm.Custom = p.custom
 		case "union":
 			nmem := rapid.IntRange(1, 4).Draw(t, "nmem")
 			nm.HasNull = rapid.Bool().Draw(t, "hasnull")
@@ -398,4 +403,28 @@ func RandomManifest(t *rapid.T, root string, o ManifestOpts) *Schema {
 		s.Resources = append(s.Resources, r)
 	}
 	return s
+}
+
+// CustomTyperefSource is the hand-written implementation of a custom typeref, in the shape of upstream's example
+// (internal/tests/testdata/generated_extras/extras/Temperature.go): a named type over the primitive and the four functions
+// the generated code refers to, plus Pointer().
+func CustomTyperefSource(root string, n *Named, fnv1aImport string) string {
+	gt := map[string]string{"int32": "int32", "int64": "int64", "float32": "float32", "float64": "float64", "bool": "bool", "string": "string", "bytes": "[]byte"}[n.Prim]
+	hn := map[string]string{"int32": "Int32", "int64": "Int64", "float32": "Float32", "float64": "Float64", "bool": "Bool", "string": "String", "bytes": "Bytes"}[n.Prim]
+	var b strings.Builder
+	fmt.Fprintf(&b, "package %s\n\n// hand-written custom typeref (verif)\n\nimport (\n", PackageName(PackagePath(root, n.Namespace)))
+	eq := "a == b"
+	if n.Prim == "bytes" {
+		b.WriteString("\t\"bytes\"\n\n")
+		eq = "bytes.Equal(a, b)"
+	}
+	fmt.Fprintf(&b, "\t%q\n)\n\n", fnv1aImport)
+	N := n.Name
+	fmt.Fprintf(&b, "type %s %s\n\n", N, gt)
+	fmt.Fprintf(&b, "func Marshal%s(v %s) (%s, error) { return %s(v), nil }\n\n", N, N, gt, gt)
+	fmt.Fprintf(&b, "func Unmarshal%s(p %s) (%s, error) { return %s(p), nil }\n\n", N, gt, N, N)
+	fmt.Fprintf(&b, "func Equals%s(a, b %s) bool { return %s }\n\n", N, N, eq)
+	fmt.Fprintf(&b, "func ComputeHash%s(v %s) fnv1a.Hash { return fnv1a.Hash%s(%s(v)) }\n\n", N, N, hn, gt)
+	fmt.Fprintf(&b, "func (v %s) Pointer() *%s { return &v }\n", N, N)
+	return b.String()
 }
